@@ -61,6 +61,22 @@ Proof.
   change s1 with (fst (s1, r)). rewrite <- E. apply step_threads.
 Qed.
 
+Lemma step_salt : forall s o, g_salt (fst (step s o)) = g_salt s.
+Proof.
+  intros s o. destruct o as [d c|d c|d c [z|]|d|k|k|n|[|]|c [z|]|k d|k|k|f cfg|k d]; try (cbn; reflexivity); open_objs s; reflexivity.
+Qed.
+
+Lemma step_env : forall s o, ct_env (fst (step s o)) = ct_env s.
+Proof. intros. unfold ct_env. rewrite step_threads, step_salt. reflexivity. Qed.
+
+Lemma run_env : forall h s, ct_env (fst (run s h)) = ct_env s.
+Proof.
+  induction h as [|o h IH]; intros s; [reflexivity|].
+  cbn [run]. destruct (step s o) as [s1 r] eqn:E. specialize (IH s1).
+  destruct (run s1 h) as [s2 rs]. cbn [fst] in *. rewrite IH.
+  change s1 with (fst (s1, r)). rewrite <- E. apply step_env.
+Qed.
+
 Lemma step_ct_default : forall s o, g_ct_default (fst (step s o)) = g_ct_default s.
 Proof.
   intros s o. destruct o as [d c|d c|d c [z|]|d|k|k|n|[|]|c [z|]|k d|k|k|f cfg|k d]; try (cbn; reflexivity); open_objs s; reflexivity.
@@ -105,7 +121,7 @@ Qed.
 
 (* ---- the result of a seeded fit is a function of the operation (and, for CalTRACK, of the pool size) ---- *)
 
-Lemma step_seeded_pure : forall s o, seeded o = true -> snd (step s o) = pure_out (g_threads s) o.
+Lemma step_seeded_pure : forall s o, seeded o = true -> snd (step s o) = pure_out (ct_env s) o.
 Proof.
   intros s o H. destruct o as [d c|d c|d c [z|]|d|k|k|n|[|]|c [z|]|k d|k|k|f cfg|k d]; cbn in *; try discriminate; reflexivity.
 Qed.
@@ -113,11 +129,11 @@ Qed.
 Lemma pure_out_threads : forall o t1 t2, thread_sensitive o = false -> pure_out t1 o = pure_out t2 o.
 Proof. intros o t1 t2 H. destruct o as [d c|d c|d c [z|]|d|k|k|n|[|]|c [z|]|k d|k|k|f cfg|k d]; cbn in *; try discriminate; reflexivity. Qed.
 
-Lemma history_independent_same_pool : forall o s1 s2 h1 h2, seeded o = true -> g_threads s1 = g_threads s2 ->
+Lemma history_independent_same_pool : forall o s1 s2 h1 h2, seeded o = true -> ct_env s1 = ct_env s2 ->
   out (run s1 (h1 ++ [o])) = out (run s2 (h2 ++ [o])).
 Proof.
   intros o s1 s2 h1 h2 Hs Ht. rewrite !out_snoc. rewrite !step_seeded_pure by exact Hs.
-  rewrite !run_threads. rewrite Ht. reflexivity.
+  rewrite !run_env. rewrite Ht. reflexivity.
 Qed.
 
 Lemma history_independent : forall o s1 s2 h1 h2, seeded o = true -> thread_sensitive o = false ->
@@ -129,20 +145,20 @@ Qed.
 
 (* a whole batch of seeded fits: every result is the pure function of its own operation, so the order of the batch
    permutes the results and changes none *)
-Lemma batch_pure : forall h s, forallb seeded h = true -> snd (run s h) = map (pure_out (g_threads s)) h.
+Lemma batch_pure : forall h s, forallb seeded h = true -> snd (run s h) = map (pure_out (ct_env s)) h.
 Proof.
   induction h as [|o h IH]; intros s H; [reflexivity|].
   cbn [forallb] in H. apply andb_prop in H. destruct H as [Ho Hh].
   cbn [run map]. destruct (step s o) as [s1 r] eqn:E.
   specialize (IH s1 Hh). destruct (run s1 h) as [s2 rs]. cbn [snd] in *.
-  assert (Hr : r = pure_out (g_threads s) o).
+  assert (Hr : r = pure_out (ct_env s) o).
   { change r with (snd (s1, r)). rewrite <- E. apply step_seeded_pure. exact Ho. }
-  assert (Ht : g_threads s1 = g_threads s).
-  { change s1 with (fst (s1, r)). rewrite <- E. apply step_threads. }
+  assert (Ht : ct_env s1 = ct_env s).
+  { change s1 with (fst (s1, r)). rewrite <- E. apply step_env. }
   rewrite IH, Hr, Ht. reflexivity.
 Qed.
 
-Lemma batch_order : forall h1 h2 s1 s2, Permutation h1 h2 -> forallb seeded h1 = true -> g_threads s1 = g_threads s2 ->
+Lemma batch_order : forall h1 h2 s1 s2, Permutation h1 h2 -> forallb seeded h1 = true -> ct_env s1 = ct_env s2 ->
   Permutation (snd (run s1 h1)) (snd (run s2 h2)).
 Proof.
   intros h1 h2 s1 s2 P H Ht.
@@ -153,15 +169,15 @@ Qed.
 
 (* prediction with the model of a seeded fit, after any history of the process *)
 Lemma predict_after_history : forall o p t h, seeded o = true ->
-  out (run (init p t) (h ++ [o; Predict (length h)])) = RPredict (pure_out t o).
+  out (run (init p t) (h ++ [o; Predict (length h)])) = RPredict (pure_out (ct_env (init p t)) o).
 Proof.
   intros o p t h Hs.
   change (h ++ [o; Predict (length h)]) with (h ++ ([o] ++ [Predict (length h)])).
   rewrite app_assoc. rewrite out_snoc.
   set (s := fst (run (init p t) (h ++ [o]))).
-  assert (Hm : g_models s = snd (run (init p t) h) ++ [pure_out t o]).
+  assert (Hm : g_models s = snd (run (init p t) h) ++ [pure_out (ct_env (init p t)) o]).
   { unfold s. rewrite run_models. cbn [init g_models app]. rewrite run_app. cbn [snd]. rewrite run_one. cbn [snd].
-    rewrite step_seeded_pure by exact Hs. rewrite run_threads. reflexivity. }
+    rewrite step_seeded_pure by exact Hs. rewrite run_env. reflexivity. }
   cbn [step]. unfold with_result. cbn [snd]. rewrite Hm.
   rewrite nth_error_app2 by (rewrite run_length; lia).
   rewrite run_length, Nat.sub_diag. cbn [nth_error].
@@ -419,7 +435,7 @@ Qed.
 
 (* fit(A) ... fit(B) on ONE daily/billing object: the last fit is the fit of a fresh object *)
 Lemma refit_db_equals_fresh : forall s h f cfg d,
-  out (run s (NewDB f cfg :: h ++ [FitDB (length (g_dbs s)) d])) = RFit f d cfg (thread_class f (g_threads s)) [].
+  out (run s (NewDB f cfg :: h ++ [FitDB (length (g_dbs s)) d])) = RFit f d cfg (thread_class f (ct_env s)) [].
 Proof.
   intros s h f cfg d.
   change (NewDB f cfg :: h ++ [FitDB (length (g_dbs s)) d]) with ((NewDB f cfg :: h) ++ [FitDB (length (g_dbs s)) d]).
@@ -434,5 +450,5 @@ Proof.
     destruct (run_keeps_db h s1 _ ob H1) as [ob2 [H2 [F2 C2]]].
     destruct (run s1 h) as [s2 rs]. exists ob2. split; [exact H2|split; assumption]. }
   destruct Hk as [ob' [Hk [Hf Hc]]]. cbn [step]. rewrite Hk. cbn [snd with_dbs with_result]. rewrite Hf, Hc.
-  rewrite run_threads. reflexivity.
+  rewrite run_env. reflexivity.
 Qed.
